@@ -59,6 +59,11 @@ def main():
     try:
         patch = os.path.join(a.src, "patch.diff")
         rc, out = sh(f"git apply --check {patch}", cwd=wt)
+        three = False
+        if rc != 0:  # context shifted by a later fix commit: three-way
+            rc, out = sh(f"git apply -3 --check {patch}", cwd=wt)
+            three = rc == 0
+            meta["applied_three_way"] = three
         meta["patch_applies_on_head"] = rc == 0
         if rc != 0:
             print("PATCH DOES NOT APPLY:", out); meta["error"] = out[-800:]; return finish(a, meta, wt)
@@ -70,7 +75,7 @@ def main():
         rc0, out0 = sh(cmd, cwd=wt)
         meta["ran"].append({"cmd": cmd + "   # unpatched", "exit": rc0, "tail": out0[-600:]})
         meta["demo_passes_without_patch"] = rc0 == 0
-        sh(f"git apply {patch}", cwd=wt)
+        sh(f"git apply -3 {patch} && git reset -q" if three else f"git apply {patch}", cwd=wt)
         rc1, out1 = sh(cmd, cwd=wt)
         meta["ran"].append({"cmd": cmd + "   # patched", "exit": rc1, "tail": out1[-1200:]})
         meta["demo_fails_with_patch"] = rc1 != 0 and "FAIL" in out1
